@@ -102,7 +102,7 @@ PROPS = {
                     'Evaluator::run pre-checks of party count and bit counts'],
     ),
     'C03': dict(
-        units=['arith', 'ops'],
+        units=['arith', 'divide', 'ops'],
         deps=[('builder', 'C04'), ('panic', 'C02')],
         kani=[dict(name=n, fn='compile::extend_to_bits', label='complete-for-this-width-pair', thorough_only=t,
                    bound='symbolic wire values and signedness, widening ' + n.split('_', 2)[2].replace('_', ' -> ') + ' bits, loops fully unrolled')
@@ -120,18 +120,21 @@ PROPS = {
               'compile arms: unary minus, + and - (an Overflow panic is recorded iff the exact result is not representable, the result is '
               'exact otherwise); !, &, |, ^ (bit k of the result is the operation on bit k of the operands, no panic); <, > (exact signed / '
               'unsigned comparison), ==, != (bit-for-bit agreement); << and >> (Overflow panic iff the amount is not below the width of x; '
-              'result bit i is bit i of x moved by the amount, zeros shifted in, the sign bit for >> of a signed x). Multiplier, divider, '
+              'result bit i is bit i of x moved by the amount, zeros shifted in, the sign bit for >> of a signed x); the restoring divider '
+              'push_unsigned_division_circuit (for y != 0: quotient == x / y and remainder == x % y) and push_signed_division_circuit (quotient '
+              '|x| / |y| negated when the signs differ, remainder |x| % |y| with the sign of x) and the arms of / and % (Division-By-Zero panic '
+              'iff y == 0, first failure wins; for / an Overflow panic iff the truncated quotient is not representable, i.e. MIN / -1; otherwise '
+              'the result is the quotient truncated toward zero resp. the remainder with the sign of the dividend). Multiplier, '
               'casts, the constant-multiplication rewrite and the composition inside compile (operand evaluation, width extension, dispatch) are '
               'NOT proved: they are covered by a bounded differential check through compile + eval against exact arithmetic (quick: '
               'boundary-directed and random operands for all widths, all 16 binary operators, both unary operators, all casts, var/const '
               'operand modes; thorough: additionally all 2^16 operand pairs of u8/i8 per operator and all source values of 8/16-bit casts).',
         note='Trusted: builder-core and panic-record contracts (proved in units builder / panic, which this check runs too); vstd '
-             '(Vec, slices, pow2 lemmas, ghost iterators of ranges / reversed ranges / slices); Vec::split_off via vstd; derived PartialEq of the field-less enum Op is structural equality (admit); rules R0-R3, R5, R5c, R7-R9; a lone `;` inserted after a unit-typed tail '
+             '(Vec, slices, pow2 lemmas, ghost iterators of ranges / reversed ranges / slices); Vec::split_off via vstd; derived PartialEq of the field-less enum Op is structural equality (admit); <[T]>::to_vec specification (assume_specification); rules R0-R3, R5, R5c, R7-R9, R12-R14; a lone `;` inserted after a unit-typed tail '
              'expression where a proof block must follow. The operand types of an arm are abstract (only signedness is used).',
         title='integer operators bit-exact at every width: adder / negation / subtraction / comparators / equality circuits and the arms of '
-              '-x, !x, +, -, &, |, ^, <, >, ==, !=, <<, >> proved; * / % and casts by bounded differential check',
-        unverified=['Op::Mul (array multiplier, constant rewrite), Op::Div / Op::Mod (restoring divider), Cast / extend_to_bits (Kani for fixed width pairs): '
-                    'bounded differential only',
+              '-x, !x, +, -, /, %, &, |, ^, <, >, ==, !=, <<, >> proved; * and casts by bounded differential check',
+        unverified=['Op::Mul (array multiplier, constant rewrite), Cast / extend_to_bits (Kani for fixed width pairs): bounded differential only',
                     'operand width extension and the dispatch inside the big Op arm of compile; <= and >= are desugared by the parser into (x < y) | (x == y) resp. (x > y) | (x == y)'],
     ),
     'C13': dict(
